@@ -1,5 +1,6 @@
 import Aurora.Lemmas.Group
 import Aurora.Lemmas.Flood
+import Aurora.Generated.MulticastFacts
 /-!
 # C38 — Multicast groups partition peers and flood each message once
 
@@ -82,7 +83,85 @@ theorem C38_prune_spec (ops : List Op) :
   have h := inv_run ops
   exact ⟨length_pruneKnown h.ndn, mem_pruneKnown h.ndn, pruneKnown_connected _, pruneKnown_kept _⟩
 
+/-- **Partition with discovery (clause 1, `discover.go`).**  Histories may also contain discovery
+    rounds (`Service.discover` → `doFindGroup`): the connected, then the kept peers are asked for
+    members; while a request is in flight ANY peers may complete a handshake (`add x true`, any
+    `IsNeighbor` answer), the answer may name ANY peers — in particular ones that just handshook, or
+    that are connected / kept / known already — and every answered peer goes through
+    `Group.add(addr, false)`; then `pruneKnown`.  After any such history the three lists are still
+    duplicate-free and pairwise disjoint.  (That findGroup answers do go through `add` in discover.go
+    is the generated fact `C38_lists_only_changed_by_group_ops`; the `find` op of the correspondence run
+    ties `doFind` to the real `doFindGroup`.) -/
+theorem C38_lists_disjoint_with_discovery (steps : List Step) :
+    let g := runSteps steps
+    g.connected.Nodup ∧ g.kept.Nodup ∧ g.known.Nodup ∧
+    (∀ x, x ∈ g.connected → x ∉ g.kept) ∧
+    (∀ x, x ∈ g.connected → x ∉ g.known) ∧
+    (∀ x, x ∈ g.kept → x ∉ g.known) := by
+  have h := inv_runSteps steps
+  exact ⟨h.ndc, h.ndk, h.ndn, h.ck, h.cn, h.kn⟩
+
+/-- one discovery round from ANY state satisfying the invariant keeps it -/
+theorem C38_discovery_round_preserves (g : Group) (h : Inv g) (kp : Nat) (script : List Seg)
+    (nbr : Peer → Bool) : Inv (discover kp script nbr g) :=
+  inv_discover h kp script nbr
+
+section Facts
+open Aurora.Generated.MulticastFacts
+
+/-- a place that changes one of the three lists is acceptable: `Add`/`Remove` on a list only inside
+    `Group.add`, `Group.remove`, `Group.pruneKnown` (group.go; each holds `g.mux`), resets to a fresh
+    empty slice only in `newGroup` (construction) and `gcGroup`; nothing else (no assignment of
+    anything else, no `Add`/`Remove` through a `*pslice.PSlice` alias, no list handed to code outside
+    the package). -/
+def mutOK (m : Mut) : Bool :=
+  if m.kind == "add" || m.kind == "remove" then
+    m.file == "group.go" && (m.fn == "add" || m.fn == "remove" || m.fn == "pruneKnown")
+  else if m.kind == "init-new" then m.file == "group.go" && m.fn == "newGroup"
+  else if m.kind == "assign-new" then m.file == "group.go" && m.fn == "gcGroup"
+  else false
+
+/-- **static obligation** (table regenerated from pkg/multicast/*.go on every run,
+    harness/cmd/extract/multicast_facts.go): the three peer lists of a group change only through the
+    transitions of `Model/Group.lean` — every `Add`/`Remove` on `connectedPeers` / `keepPeers` /
+    `knownPeers` is inside `Group.add` / `remove` / `pruneKnown`; everything else in the package
+    (discovery, handshakes, notify handlers, the disconnect event) calls those methods, and
+    `doFindGroup` does call `add` for what a findGroup answer names.  The seeded change C38-3
+    (`g.knownPeers.Add(addr)` in doFindGroup) yields an `add` row in discover.go and this fails. -/
+theorem C38_lists_only_changed_by_group_ops :
+    mutations.all mutOK = true ∧
+    mutations.any (fun m => m.kind == "add" && m.fn == "add") = true ∧
+    groupOpCalls.any (fun c => c.1 == "discover.go" && c.2.1 == "doFindGroup" && c.2.2.1 == "add") = true ∧
+    groupOpCalls.any (fun c => c.2.1 == "updatePeerGroupsJoin" && c.2.2.1 == "add") = true := by
+  decide
+
+/-- **static obligation**: the model's de-duplication sets never lose an entry, i.e. an entry lives
+    for the whole window.  In the code: the package cache is built by `gcache.New()` WITHOUT a
+    capacity (gf v2.0.3: `New(lruCap ...int)`; with a capacity the memory adapter evicts the least
+    recently used entries beyond it regardless of their expiry), it is never re-bound, the only
+    methods called on it are reads and (conditional) sets — nothing removes or clears — and both
+    de-duplication test-and-sets pass `multicastMsgCache = time.Minute * 1` as lifetime.  The seeded
+    change C38-4 (`gcache.New(1024)`) makes the first conjunct false. -/
+theorem C38_dedupe_entries_live_for_window :
+    cacheCtor = ("gcache.New", 0) ∧ cacheRebinds = [] ∧
+    cacheUses.all (fun u => u.2.2.1 == "Contains" || u.2.2.1 == "MustGet" || u.2.2.1 == "Get" ||
+      u.2.2.1 == "Set" || u.2.2.1 == "SetIfNotExist") = true ∧
+    cacheUses.any (fun u => u.2.1 == "cacheSetIfNotExist" && u.2.2.1 == "SetIfNotExist") = true ∧
+    dedupeDurations.length ≥ 2 ∧
+    dedupeDurations.all (fun d => d.2.2.1 == "multicastMsgCache") = true ∧
+    multicastMsgCacheInit = "time.Minute * 1" := by
+  decide
+
+end Facts
+
 /-! non-vacuity: concrete histories -/
+
+/-- the in-flight scenario: connected neighbour 1 is asked; meanwhile peer 2 handshakes (not a
+    neighbour → kept); the answer names 2 and 3: 2 moves kept → known, it is never in two lists -/
+example : discover 1000 [⟨1, [2], [2, 3]⟩] (fun _ => false) { connected := [1] } =
+    { connected := [1], kept := [], known := [2, 3] } := by decide
+example : (doFind 1 [⟨1, [2], [4]⟩, ⟨5, [], [6]⟩] (fun _ => false) { connected := [1, 5] }).1.map (·.v) = [1] := by
+  decide
 
 /-- a history after which a peer IS connected (hypothesis of `C38_connected_was_neighbor`),
     one kept, one known; order after a removal is the swap-with-last order of `PSlice.Remove` -/
